@@ -291,8 +291,9 @@ def run_case(workdir, protos, root, cc_std_list=('c99', 'c11'), check_cxx=True, 
         with open(reg_c, 'w') as fh:
             fh.write(registry_source(h_files, reg))
         exe = os.path.join(linkdir, 'desc_dump')
-        cmd = ['gcc', '-std=' + use_std, '-Wall', '-I' + REPO, '-I' + outdir, reg_c, tools['desc_dump_o']] + objs + \
-              [tools['runtime_o'], '-o', exe]
+        # -no-pie: fixed link-time addresses, so that stray pointers in dumped memory do not vary from run to run
+        cmd = ['gcc', '-std=' + use_std, '-Wall', '-no-pie', '-I' + REPO, '-I' + outdir, reg_c,
+               tools['desc_dump_o']] + objs + [tools['runtime_o'], '-o', exe]
         rc, out, err = _run(cmd, cwd=workdir)
         if rc != 0:
             res['link_errors'].append({'file': 'registry.c', 'std': use_std, 'stderr': _first_lines(err)})
